@@ -5,6 +5,7 @@
    code (the _pinned definitions of the model). *)
 From Twig Require Import Base.Bytes Base.Utf8F Model.Value Model.Filters Spec.FilterSpec Proofs.Utf8FProofs Proofs.FilterProofs
   Gen.Registry Proofs.FilterGenProofs.
+From Twig Require Import Base.Kernel Gen.KernelsSlice Proofs.KernelSliceModel Proofs.KernelSliceSafe Proofs.KernelSliceMachine.
 From Coq Require Import NArith ZArith Sorting.Permutation Sorting.Sorted.
 Local Open Scope Z_scope.
 
@@ -250,6 +251,44 @@ Example C19_example_known_classes :
   fsp_dec_text (fsp_dec_round FMCommon {| fd_m := -25; fd_sc := 1 |} 0) = b#"-3".
 Proof. exact C19_known_classes_examples_proof. Qed.
 
+
+(* ---------------------------------------------------------------- the index computation of the code itself *)
+(* Gen/KernelsSlice.v holds the four index computations of filterSlice (string, []interface{}, and the two reflection
+   branches) as the translator tools/gogen/gen_kernel.go reads them from the working tree, statement by statement
+   (k_slice_*_ir, terms of Base/Kernel.v's kstm; k_slice_* the same as plain Gallina, equal by computation). They equal
+   the model functions flt_slice_bounds / flt_slice_bounds_refl that C19_slice_is_spec is about: for every start, every
+   length (given or omitted) and every n. hasLength false = the length is omitted or null. *)
+Theorem C19_slice_code_is_model : forall (start len : Z) (hasLength : bool) (n : Z),
+  k_slice_string start len hasLength n = ksl_res (flt_slice_bounds n start (ksl_len hasLength len)) /\
+  k_slice_list start len hasLength n = ksl_res (flt_slice_bounds n start (ksl_len hasLength len)) /\
+  k_slice_refl_string start len hasLength n = ksl_res (flt_slice_bounds n start (ksl_len hasLength len)) /\
+  k_slice_refl_slice start len hasLength n = ksl_res (flt_slice_bounds_refl n start (ksl_len hasLength len)).
+Proof.
+  intros. repeat split;
+    [apply k_slice_string_model|apply k_slice_list_model|apply k_slice_refl_string_model|apply k_slice_refl_slice_model].
+Qed.
+
+(* the same on the machine: Go's int is 64 bits wide and wraps; for every int64 start and length and every length n
+   a Go string or slice can have, the translated terms run with wrap-around give the model's bounds *)
+Theorem C19_slice_code_on_machine : forall (start len : Z) (hasLength : bool) (n : Z),
+  in64 start = true -> in64 len = true -> 0 <= n < 2^63 ->
+  krun w64 (k_slice_string_env start len hasLength n) k_slice_string_ir = ksl_res (flt_slice_bounds n start (ksl_len hasLength len)) /\
+  krun w64 (k_slice_list_env start len hasLength n) k_slice_list_ir = ksl_res (flt_slice_bounds n start (ksl_len hasLength len)) /\
+  krun w64 (k_slice_refl_string_env start len hasLength n) k_slice_refl_string_ir = ksl_res (flt_slice_bounds n start (ksl_len hasLength len)) /\
+  krun w64 (k_slice_refl_slice_env start len hasLength n) k_slice_refl_slice_ir = ksl_res (flt_slice_bounds_refl n start (ksl_len hasLength len)).
+Proof.
+  intros start len hl n Hs Hl Hn. repeat split;
+    [apply k_slice_string_machine|apply k_slice_list_machine|apply k_slice_refl_string_machine|apply k_slice_refl_slice_machine]; assumption.
+Qed.
+
+(* the translation covered all four branches (a statement the translator does not understand would make this false) *)
+Theorem C19_slice_code_translated : kernels_slice_ok = true.
+Proof. reflexivity. Qed.
+
+(* not vacuous: 'abcdef'|slice(-4, 2) -- start -4, length 2, six code points -- is [2, 4) *)
+Example C19_slice_code_example : k_slice_string (-4) 2 true 6 = KRet b#"slice" [KZ 2; KZ 4].
+Proof. reflexivity. Qed.
+
 Print Assumptions C19_upper_idempotent.
 Print Assumptions C19_lower_idempotent.
 Print Assumptions C19_trim_idempotent.
@@ -282,3 +321,6 @@ Print Assumptions C19_round_int_exact.
 Print Assumptions C19_number_format_int_exact.
 Print Assumptions C19_abs.
 Print Assumptions C19_registry.
+Print Assumptions C19_slice_code_is_model.
+Print Assumptions C19_slice_code_on_machine.
+Print Assumptions C19_slice_code_translated.
